@@ -1,32 +1,42 @@
 import Litestream.Model.Lease
-/-! Helper lemmas for C20: the inductive invariant of the lease protocol. -/
+/-! Helper lemmas for C20: the inductive invariant of the lease protocol.
+
+Holders are *instances* (client indices). The owner string written into the record is
+`State.label c`, an arbitrary, possibly shared label. -/
 namespace Litestream.Lease
 
 /-- The inductive invariant. -/
 structure Inv (s : State) : Prop where
-  /-- a lease a client was handed carries the ETag of its own record and names the client as owner -/
-  lease_wf : ∀ c l, (s.clients c).lease = some l → l.etag = etagOf l.body ∧ l.body.owner = c
+  /-- a lease an instance was handed carries the ETag of its own record and the instance's label -/
+  lease_wf : ∀ c l, (s.clients c).lease = some l → l.etag = etagOf l.body ∧ l.body.owner = s.label c
   /-- an active lease is still the stored record, or it has expired -/
   lease_live : ∀ c l, (s.clients c).lease = some l → (s.clients c).active = true →
       s.store = some l.body ∨ l.body.exp < s.now
+  /-- two instances never have byte-identical lease records in hand (needs `FreshStep`) -/
+  lease_unique : ∀ c d lc ld, c ≠ d → (s.clients c).lease = some lc → (s.clients d).lease = some ld →
+      lc.body ≠ ld.body
   /-- an acquire about to write either writes conditionally on absence (generation 1) or on the
   ETag of a record that it saw expired (generation + 1) -/
-  pc_put : ∀ c new cond, (s.clients c).pc = .put new cond → new.owner = c ∧
+  pc_put : ∀ c new cond, (s.clients c).pc = .put new cond → new.owner = s.label c ∧
       match cond with
       | .ifNoneMatchStar => new.gen = 1
       | .ifMatch e => ∃ r, e = etagOf r ∧ r.exp < s.now ∧ new.gen = r.gen + 1
   pc_got : ∀ c r e, (s.clients c).pc = .got (some (r, e)) → e = etagOf r
   /-- the ghost history agrees with the store -/
-  hist_store : s.store = match s.hist with | .wrote r :: _ => some r | _ => none
+  hist_store : s.store = match s.hist with | .wrote _ r :: _ => some r | _ => none
+  /-- the instance named as writer of the newest record still has that record in hand -/
+  hist_writer : ∀ w r rest, s.hist = .wrote (some w) r :: rest → (s.clients w).lease = some ⟨r, etagOf r⟩
   hist_gen : genPartial s.hist = true
 
-theorem inv_init (store : Option Rec) : Inv (initState store) := by
+theorem inv_init (store : Option Rec) (label : Nat → Nat) : Inv (initState store label) := by
   constructor
   · intro c l h; simp [initState, idleClient] at h
   · intro c l h; simp [initState, idleClient] at h
+  · intro c d lc ld _ h; simp [initState, idleClient] at h
   · intro c new cond h; simp [initState, idleClient] at h
   · intro c r e h; simp [initState, idleClient] at h
   · cases store <;> simp [initState]
+  · intro w r rest h; cases store <;> simp [initState] at h
   · cases store <;> simp [initState, genPartial, dominates, segHead]
 
 @[simp] theorem setClient_same (s : State) (c : Nat) (cl : Client) : (s.setClient c cl).clients c = cl := by
@@ -38,24 +48,34 @@ theorem setClient_other (s : State) (c d : Nat) (cl : Client) (h : d ≠ c) : (s
 @[simp] theorem setClient_now (s : State) (c : Nat) (cl : Client) : (s.setClient c cl).now = s.now := rfl
 @[simp] theorem setClient_store (s : State) (c : Nat) (cl : Client) : (s.setClient c cl).store = s.store := rfl
 @[simp] theorem setClient_hist (s : State) (c : Nat) (cl : Client) : (s.setClient c cl).hist = s.hist := rfl
+@[simp] theorem setClient_label (s : State) (c : Nat) (cl : Client) : (s.setClient c cl).label = s.label := rfl
+
+/-- `setClient` with an unchanged `lease` field leaves every instance's lease object alone. -/
+theorem setClient_lease (s : State) (c d : Nat) (cl : Client) (hl : cl.lease = (s.clients c).lease) :
+    ((s.setClient c cl).clients d).lease = (s.clients d).lease := by
+  by_cases hd : d = c
+  · subst hd; simp [hl]
+  · rw [setClient_other _ _ _ _ hd]
 
 /-- Changing only a client's `pc` to something the invariant does not constrain. -/
 theorem inv_setPc (s : State) (c : Nat) (pc : Pc) (h : Inv s)
-    (hput : ∀ new cond, pc = .put new cond → new.owner = c ∧
+    (hput : ∀ new cond, pc = .put new cond → new.owner = s.label c ∧
       match cond with
       | .ifNoneMatchStar => new.gen = 1
       | .ifMatch e => ∃ r, e = etagOf r ∧ r.exp < s.now ∧ new.gen = r.gen + 1)
     (hgot : ∀ r e, pc = .got (some (r, e)) → e = etagOf r) :
     Inv (s.setClient c { s.clients c with pc := pc }) := by
+  have hlease : ∀ d, ((s.setClient c { s.clients c with pc := pc }).clients d).lease = (s.clients d).lease :=
+    fun d => setClient_lease s c d _ rfl
   constructor
   · intro d l hl
-    by_cases hd : d = c
-    · subst hd; simp at hl; exact h.lease_wf d l hl
-    · rw [setClient_other _ _ _ _ hd] at hl; exact h.lease_wf d l hl
+    rw [hlease] at hl; exact h.lease_wf d l hl
   · intro d l hl ha
     by_cases hd : d = c
     · subst hd; simp at hl ha; simpa using h.lease_live d l hl ha
     · rw [setClient_other _ _ _ _ hd] at hl ha; simpa using h.lease_live d l hl ha
+  · intro a b la lb hab hla hlb
+    rw [hlease] at hla hlb; exact h.lease_unique a b la lb hab hla hlb
   · intro d new cond hp
     by_cases hd : d = c
     · subst hd; simp at hp; simpa using hput new cond hp
@@ -65,46 +85,55 @@ theorem inv_setPc (s : State) (c : Nat) (pc : Pc) (h : Inv s)
     · subst hd; simp at hp; exact hgot r e hp
     · rw [setClient_other _ _ _ _ hd] at hp; exact h.pc_got d r e hp
   · simpa using h.hist_store
+  · intro w r rest hh
+    rw [hlease]; exact h.hist_writer w r rest (by simpa using hh)
   · simpa using h.hist_gen
 
-theorem dominates_cons (r2 r : Rec) (older : List Rec)
-    (hrel : r2.gen = r.gen + 1 ∨ (r2.owner = r.owner ∧ r2.gen = r.gen))
-    (hd : dominates r older = true) : dominates r2 (r :: older) = true := by
+theorem dominates_cons (w2 w : Option Nat) (r2 r : Rec) (older : List (Option Nat × Rec))
+    (hrel : r2.gen = r.gen + 1 ∨ ((w = w2 ∨ w = none) ∧ r2.gen = r.gen))
+    (hd : dominates w r older = true) : dominates w2 r2 ((w, r) :: older) = true := by
   simp only [dominates, List.all_cons, List.all_eq_true, Bool.and_eq_true, Bool.or_eq_true,
-    decide_eq_true_eq, beq_iff_eq] at *
+    decide_eq_true_eq, beq_iff_eq, Option.isNone_iff_eq_none] at *
   refine ⟨⟨by omega, ?_⟩, ?_⟩
-  · rcases hrel with h | h
+  · rcases hrel with h | ⟨h | h, _⟩
     · right; omega
-    · left; exact h.1.symm
-  · intro r1 hr1
-    have := hd r1 hr1
+    · left; left; exact h
+    · left; right; exact h
+  · intro p hp
+    have := hd p hp
     rcases hrel with h | ⟨ho, hg⟩
     · exact ⟨by omega, Or.inr (by omega)⟩
     · refine ⟨by omega, ?_⟩
-      rcases this.2 with h1 | h1
-      · left; rw [h1, ho]
+      rcases this.2 with (h1 | h1) | h1
+      · rcases ho with ho | ho
+        · left; left; rw [h1, ho]
+        · left; right; rw [h1, ho]
+      · left; right; exact h1
       · right; omega
 
 /-- A successful conditional overwrite of the stored record keeps `genPartial`. -/
-theorem genPartial_push (hist : List Ev) (new : Rec) (h : genPartial hist = true)
-    (hrel : ∀ r rest, hist = .wrote r :: rest → new.gen = r.gen + 1 ∨ (new.owner = r.owner ∧ new.gen = r.gen)) :
-    genPartial (.wrote new :: hist) = true := by
+theorem genPartial_push (hist : List Ev) (c : Nat) (new : Rec) (h : genPartial hist = true)
+    (hrel : ∀ w r rest, hist = .wrote w r :: rest →
+      new.gen = r.gen + 1 ∨ ((w = some c ∨ w = none) ∧ new.gen = r.gen)) :
+    genPartial (.wrote (some c) new :: hist) = true := by
   match hist, h, hrel with
   | [], _, _ => simp [genPartial, dominates, segHead]
   | .deleted :: rest, h, _ => simpa [genPartial, dominates, segHead] using h
-  | .wrote r :: rest, h, hrel =>
+  | .wrote w r :: rest, h, hrel =>
     simp only [genPartial, Bool.and_eq_true] at h ⊢
     refine ⟨?_, h⟩
     simp only [segHead]
-    exact dominates_cons new r _ (hrel r rest rfl) h.1
+    exact dominates_cons (some c) w new r _ (hrel w r rest rfl) h.1
 
-
-/-- A successful write of `new` by client `c` over an empty store, or over a record that is
-expired or `c`'s own, with the generation relation of `AcquireLease`/`RenewLease`. -/
-theorem inv_write (s : State) (c : Nat) (new : Rec) (h : Inv s) (hown : new.owner = c)
-    (hst : s.store = none ∨ ∃ r, s.store = some r ∧ (r.exp < s.now ∨ r.owner = c) ∧
-        (new.gen = r.gen + 1 ∨ (new.owner = r.owner ∧ new.gen = r.gen))) :
-    Inv ({ s with store := some new, hist := .wrote new :: s.hist }.setClient c
+/-- A successful write of `new` by instance `c` over an empty store, over an expired record
+(generation + 1), or over the record `c` itself has in hand (renewal, same generation) — provided
+no other instance has a byte-identical record in hand. -/
+theorem inv_write (s : State) (c : Nat) (new : Rec) (h : Inv s) (hown : new.owner = s.label c)
+    (hfresh : ∀ d, d ≠ c → ∀ ld, (s.clients d).lease = some ld → ld.body ≠ new)
+    (hst : s.store = none ∨ ∃ r, s.store = some r ∧
+        ((r.exp < s.now ∧ new.gen = r.gen + 1) ∨
+         (∃ lc, (s.clients c).lease = some lc ∧ lc.body = r ∧ new.gen = r.gen))) :
+    Inv ({ s with store := some new, hist := .wrote (some c) new :: s.hist }.setClient c
           { lease := some ⟨new, etagOf new⟩, active := true, pc := .idle }) := by
   constructor
   · intro d l hl
@@ -116,15 +145,29 @@ theorem inv_write (s : State) (c : Nat) (new : Rec) (h : Inv s) (hown : new.owne
     · subst hd; simp at hl; subst hl; left; simp
     · rw [setClient_other _ _ _ _ hd] at hl ha
       right
-      have hw := h.lease_wf d l hl
       rcases h.lease_live d l hl ha with h1 | h1
-      · rcases hst with h2 | ⟨r, h2, h3, _⟩
+      · rcases hst with h2 | ⟨r, h2, h3⟩
         · rw [h2] at h1; cases h1
-        · rw [h2] at h1; cases h1
-          rcases h3 with h3 | h3
-          · simpa using h3
-          · exact absurd (hw.2.symm.trans h3) hd
+        · rw [h2] at h1
+          have hr : r = l.body := Option.some.inj h1
+          rcases h3 with ⟨h3, _⟩ | ⟨lc, hlc, hb, _⟩
+          · rw [← hr]; simpa using h3
+          · exact absurd (hb.trans hr) (h.lease_unique c d lc l (Ne.symm hd) hlc hl)
       · simpa using h1
+  · intro a b la lb hab hla hlb
+    by_cases ha : a = c
+    · subst ha
+      have hb : b ≠ a := Ne.symm hab
+      simp at hla; subst hla
+      rw [setClient_other _ _ _ _ hb] at hlb
+      exact fun e => hfresh b hb lb hlb e.symm
+    · rw [setClient_other _ _ _ _ ha] at hla
+      by_cases hb : b = c
+      · subst hb
+        simp at hlb; subst hlb
+        exact hfresh a ha la hla
+      · rw [setClient_other _ _ _ _ hb] at hlb
+        exact h.lease_unique a b la lb hab hla hlb
   · intro d new' cond hp
     by_cases hd : d = c
     · subst hd; simp at hp
@@ -134,37 +177,56 @@ theorem inv_write (s : State) (c : Nat) (new : Rec) (h : Inv s) (hown : new.owne
     · subst hd; simp at hp
     · rw [setClient_other _ _ _ _ hd] at hp; exact h.pc_got d r e hp
   · simp
+  · intro w r rest hh
+    simp only [setClient_hist, List.cons.injEq, Ev.wrote.injEq, Option.some.injEq] at hh
+    obtain ⟨⟨hw, hr⟩, _⟩ := hh
+    subst hw hr; simp
   · simp only [setClient_hist]
-    apply genPartial_push _ _ h.hist_gen
-    intro r rest hr
+    apply genPartial_push _ _ _ h.hist_gen
+    intro w r rest hr
     have hs := h.hist_store
     rw [hr] at hs
-    rcases hst with h2 | ⟨r', h2, _, h4⟩
+    rcases hst with h2 | ⟨r', h2, h3⟩
     · rw [h2] at hs; cases hs
-    · rw [h2] at hs; cases hs; exact h4
+    · rw [h2] at hs
+      have hrr : r' = r := Option.some.inj hs
+      subst hrr
+      rcases h3 with ⟨_, h4⟩ | ⟨lc, hlc, hb, hg⟩
+      · exact Or.inl h4
+      · right
+        refine ⟨?_, hg⟩
+        cases w with
+        | none => exact Or.inr rfl
+        | some w' =>
+          left
+          have hw := h.hist_writer w' r' rest hr
+          by_cases hwc : w' = c
+          · rw [hwc]
+          · exact absurd (by simpa using hb.symm) (h.lease_unique w' c _ lc hwc hw hlc)
 
-/-- A successful delete by client `c` of its own stored record. -/
+/-- A successful delete by instance `c` of the stored record it has in hand. -/
 theorem inv_delete (s : State) (c : Nat) (l : Lease) (h : Inv s) (hl : (s.clients c).lease = some l)
     (hst : s.store = some l.body) :
     Inv ({ s with store := none, hist := .deleted :: s.hist }.setClient c
           { s.clients c with active := false }) := by
-  have hwc := h.lease_wf c l hl
+  have hlease : ∀ d, (({ s with store := none, hist := .deleted :: s.hist }.setClient c
+      { s.clients c with active := false }).clients d).lease = (s.clients d).lease :=
+    fun d => setClient_lease { s with store := none, hist := .deleted :: s.hist } c d _ rfl
   constructor
   · intro d l' hl'
-    by_cases hd : d = c
-    · subst hd; simp at hl'; exact h.lease_wf d l' hl'
-    · rw [setClient_other _ _ _ _ hd] at hl'; exact h.lease_wf d l' hl'
+    rw [hlease] at hl'; exact h.lease_wf d l' hl'
   · intro d l' hl' ha
     by_cases hd : d = c
     · subst hd; simp at ha
     · rw [setClient_other _ _ _ _ hd] at hl' ha
       right
-      have hw := h.lease_wf d l' hl'
       rcases h.lease_live d l' hl' ha with h1 | h1
       · rw [hst] at h1
         have hb : l.body = l'.body := Option.some.inj h1
-        exact absurd (hw.2.symm.trans (by rw [← hb]; exact hwc.2)) hd
+        exact absurd hb (h.lease_unique c d l l' (Ne.symm hd) hl hl')
       · simpa using h1
+  · intro a b la lb hab hla hlb
+    rw [hlease] at hla hlb; exact h.lease_unique a b la lb hab hla hlb
   · intro d new' cond hp
     by_cases hd : d = c
     · subst hd; simp at hp; simpa using h.pc_put d new' cond hp
@@ -174,6 +236,7 @@ theorem inv_delete (s : State) (c : Nat) (l : Lease) (h : Inv s) (hl : (s.client
     · subst hd; simp at hp; exact h.pc_got d r e hp
     · rw [setClient_other _ _ _ _ hd] at hp; exact h.pc_got d r e hp
   · simp
+  · intro w r rest hh; simp at hh
   · simpa [genPartial] using h.hist_gen
 
 theorem inv_tick (s : State) (d : Nat) (h : Inv s) : Inv { s with now := s.now + d } := by
@@ -183,6 +246,7 @@ theorem inv_tick (s : State) (d : Nat) (h : Inv s) : Inv { s with now := s.now +
     rcases h.lease_live c l hl ha with h1 | h1
     · exact Or.inl h1
     · right; show l.body.exp < s.now + d; omega
+  · exact h.lease_unique
   · intro c new cond hp
     have := h.pc_put c new cond hp
     refine ⟨this.1, ?_⟩
@@ -193,8 +257,8 @@ theorem inv_tick (s : State) (d : Nat) (h : Inv s) : Inv { s with now := s.now +
       exact ⟨r, h1, by show r.exp < s.now + d; omega, h3⟩
   · exact h.pc_got
   · exact h.hist_store
+  · exact h.hist_writer
   · exact h.hist_gen
-
 
 theorem s3Put_ok_iff (store : Option Rec) (cond : Cond) (new : Rec) (m : Missing) :
     (s3Put store cond new m).1 = .ok ↔
@@ -222,7 +286,26 @@ theorem s3Delete_ok_store (store : Option Rec) (e : ETag) (m : Missing)
   cases store <;> cases m <;> simp_all [s3Delete, missingResp]
   all_goals (split <;> simp_all)
 
-theorem inv_step (s : State) (lab : Label) (h : Inv s) : Inv (step s lab).1 := by
+/-- Side condition of a step: the record an instance is about to write successfully is not
+byte-identical to a lease record another instance has in hand. With an ETag that is a content hash
+this is what makes a stale lease object useless to its owner; it holds whenever owner strings are
+distinct (`freshStep_of_injective`), and with shared owner strings as long as the (nanosecond)
+`ExpiresAt` of different instances' writes of the same generation never coincide. -/
+def FreshStep (s : State) : Label → Prop
+  | .acquirePut c m =>
+    ∀ new cond, (s.clients c).pc = .put new cond → (s3Put s.store cond new m).1 = .ok →
+      ∀ d, d ≠ c → ∀ ld, (s.clients d).lease = some ld → ld.body ≠ new
+  | .renew c ttl m =>
+    ∀ l, (s.clients c).lease = some l →
+      (s3Put s.store (writeLeaseCond (some l.etag)) ⟨l.body.gen, s.now + ttl, s.label c⟩ m).1 = .ok →
+      ∀ d, d ≠ c → ∀ ld, (s.clients d).lease = some ld → ld.body ≠ ⟨l.body.gen, s.now + ttl, s.label c⟩
+  | _ => True
+
+def FreshRun (s : State) : List Label → Prop
+  | [] => True
+  | l :: ls => FreshStep s l ∧ FreshRun (step s l).1 ls
+
+theorem inv_step (s : State) (lab : Label) (h : Inv s) (hf : FreshStep s lab) : Inv (step s lab).1 := by
   cases lab with
   | tick d => exact inv_tick s d h
   | acquireGet c =>
@@ -275,7 +358,7 @@ theorem inv_step (s : State) (lab : Label) (h : Inv s) : Inv (step s lab).1 := b
         have hok : (s3Put s.store cond new m).1 = .ok := by
           cases hr : (s3Put s.store cond new m).1 <;> simp [hr, writeLeaseOutcome] at hout ⊢
         rw [s3Put_ok_store _ _ _ _ hok]
-        apply inv_write s c new h hp.1
+        apply inv_write s c new h hp.1 (hf new cond hpc hok)
         rcases (s3Put_ok_iff _ _ _ _).1 hok with ⟨_, hst⟩ | ⟨cur, hc, hst⟩
         · exact Or.inl hst
         · right
@@ -283,7 +366,7 @@ theorem inv_step (s : State) (lab : Label) (h : Inv s) : Inv (step s lab).1 := b
           obtain ⟨r, h1, h2, h3⟩ := hp.2
           have : cur = r := etagOf_injective h1
           subst this
-          exact ⟨cur, hst, Or.inl h2, Or.inl h3⟩
+          exact ⟨cur, hst, Or.inl ⟨h2, h3⟩⟩
       · apply inv_setPc _ _ _ h
         · intro new cond hp; cases hp
         · intro r e hp; cases hp
@@ -308,14 +391,14 @@ theorem inv_step (s : State) (lab : Label) (h : Inv s) : Inv (step s lab).1 := b
         split
         next hok =>
           rw [s3Put_ok_store _ _ _ _ hok]
-          apply inv_write s c _ h rfl
+          apply inv_write s c _ h rfl (hf l hl hok)
           rcases (s3Put_ok_iff _ _ _ _).1 hok with ⟨hc, _⟩ | ⟨cur, hc, hst⟩
           · simp [writeLeaseCond] at hc
           · right
             simp only [writeLeaseCond, Cond.ifMatch.injEq] at hc
             have : cur = l.body := etagOf_injective (hc.symm.trans hw.1)
             subst this
-            exact ⟨l.body, hst, Or.inr hw.2, Or.inr ⟨hw.2.symm, rfl⟩⟩
+            exact ⟨l.body, hst, Or.inr ⟨l, hl, rfl, rfl⟩⟩
         · exact h
     · exact h
   | release c m =>
@@ -334,9 +417,39 @@ theorem inv_step (s : State) (lab : Label) (h : Inv s) : Inv (step s lab).1 := b
         · exact h
     · exact h
 
-theorem inv_run (s : State) (ls : List Label) (h : Inv s) : Inv (run s ls) := by
+theorem inv_run (s : State) (ls : List Label) (h : Inv s) (hf : FreshRun s ls) : Inv (run s ls) := by
   induction ls generalizing s with
   | nil => exact h
-  | cons l ls ih => exact ih _ (inv_step s l h)
+  | cons l ls ih => exact ih _ (inv_step s l h hf.1) hf.2
+
+theorem step_label (s : State) (lab : Label) : (step s lab).1.label = s.label := by
+  cases lab
+  all_goals simp only [step, stepAcquireGet, stepAcquireDecide, stepAcquirePut, stepAcquireReread,
+    stepRenew, stepRelease]
+  all_goals (repeat' split)
+  all_goals rfl
+
+/-- With pairwise distinct owner strings the side condition holds by itself. -/
+theorem freshStep_of_injective (s : State) (lab : Label) (h : Inv s)
+    (hinj : ∀ a b, s.label a = s.label b → a = b) : FreshStep s lab := by
+  cases lab with
+  | acquirePut c m =>
+    intro new cond hpc _ d hd ld hld hb
+    have h1 := (h.lease_wf d ld hld).2
+    have h2 := (h.pc_put c new cond hpc).1
+    exact hd (hinj d c (by rw [← h1, hb, h2]))
+  | renew c ttl m =>
+    intro l _ _ d hd ld hld hb
+    have h1 := (h.lease_wf d ld hld).2
+    exact hd (hinj d c (by rw [← h1, hb]))
+  | _ => trivial
+
+theorem freshRun_of_injective (s : State) (ls : List Label) (h : Inv s)
+    (hinj : ∀ a b, s.label a = s.label b → a = b) : FreshRun s ls := by
+  induction ls generalizing s with
+  | nil => trivial
+  | cons l ls ih =>
+    have hf := freshStep_of_injective s l h hinj
+    exact ⟨hf, ih _ (inv_step s l h hf) (by rw [step_label]; exact hinj)⟩
 
 end Litestream.Lease
